@@ -44,6 +44,7 @@ package slug
 //@   ghost $tarNames (Array Int String) = emptyNames
 //@   ghost $tarCloseErr Iface = nil
 //@   ghost $gzipCloseErr Iface = nil
+//@   replay packMeta@C20:
 //@   ensures C20.pack.meta: err == nil ==> metaMatchesArchive(meta)
 //@   ensures C12.pack.close-errors: err == nil ==> isNil($tarCloseErr) && isNil($gzipCloseErr)
 //@   ensures C12.pack.noresult: err != nil ==> meta == nil
@@ -57,7 +58,9 @@ package slug
 //@   closure-invariant C20.walk.meta: metaMatchesArchive(meta)
 //@   at-call (*archive/tar.Writer).WriteHeader C03.pack.excluded-never-written: !excl(ignoreRules, Rel(src, path)) && (modeDirBit(fileMode(info)) ==> !excl(ignoreRules, Rel(src, path) + "/"))
 //@   ensures C03.pack.prune-only-if-excluded: err == nil && rerr == filepath.SkipDir ==> modeDirBit(fileMode(info)) && excl(ignoreRules, Rel(src, path) + "/") && domin(ignoreRules, Rel(src, path) + "/")
-//@   replay packSelfLoop:
+//@   replay packSelfLoop@C19:
+//@   replay packMeta@C20:
+//@   replay packIgnore@C03:
 //@   decreases C19.terminates: maxExternalLinkHops - len(dereferenced)
 //@   at-call os.Open C19.open-regular: modeRegular(fileMode(info)) || (resolved != nil && modeRegular(fileMode(resolved.info)))
 //@   requires pre.captured: p != nil && meta != nil && tarW != nil
